@@ -198,6 +198,18 @@ CHECKS["C16"] = (
     "that inputs are not modified.",
     "Per-case SRS values are taken from pyyeti.srs (decided by C03); only the bookkeeping is decided here. "
     "Re-labelling of split() parts (documented to carry maxcase=None) is outside the property.", "3/C16")
+CHECKS["C15"] = (
+    "Hypothesis-generated source/load spring-mass-damper networks, interface sets, boundary-definition forms "
+    "(recovery matrix on physical or modal model, partition vector on an own Craig-Bampton form), frequency "
+    "vectors and external forces; oracle = dense solution of the physically coupled system assembled by the "
+    "check, independently computed accelerance, algebraic identities",
+    "Generated-input search: ntfl's interface acceleration and force must equal those of the directly coupled "
+    "system (shared interface DOF merged, dense complex solve per frequency); SAM and LAM must equal the "
+    "inverse of independently computed boundary accelerances, TAM = SAM + LAM exactly, R = diag(TAM^-1 SAM), "
+    "apparent-mass inputs must give the same answer as model inputs, and the apparent mass must tend to the "
+    "total rigid mass at vanishing frequency (exactly at 0 Hz on the cbtf route).",
+    "Scalar (1-D) networks with one rigid-body mode; tolerance 1000*eps*cond of the dynamic stiffness / "
+    "accelerance matrices involved.", "3/C15")
 
 NOT_APPLICABLE = {
 }
